@@ -28,6 +28,15 @@ type c10Emit struct {
 	MetaOnly bool `json:"meta_only,omitempty"`
 	// PMode (progress): which value the emission reports - "" its index (increasing), "flat" always 1, "down" 100 - index
 	PMode string `json:"pmode,omitempty"`
+	// Lvl (log without _meta): the level the handler passes to SendLogMessage ("" = info)
+	Lvl string `json:"lvl,omitempty"`
+}
+
+func (e c10Emit) level() string {
+	if e.Lvl == "" {
+		return "info"
+	}
+	return e.Lvl
 }
 
 func (e c10Emit) progress() float64 {
@@ -48,6 +57,8 @@ type c10Scenario struct {
 	Emitted []c10Emit `json:"emitted"`
 	// Rereg: the handlers are registered twice - first stand-ins, which see one warm-up call, then the real ones for the same methods
 	Rereg bool `json:"rereg,omitempty"`
+	// SlowUs: every handler invocation takes that long (a handler slower than the stream)
+	SlowUs int `json:"slow_us,omitempty"`
 }
 
 type c10Deliver struct {
@@ -108,7 +119,7 @@ func c10Send(ctx context.Context, nonce string, e c10Emit) error {
 	case e.Kind == "progress" && e.Meta:
 		return sender.SendNotification(mcp.NewNotification(c10Method["progress"], map[string]interface{}{"progress": e.progress(), "message": msg, "_meta": meta}))
 	case e.Kind == "log" && !e.Meta:
-		return sender.SendLogMessage("info", msg)
+		return sender.SendLogMessage(e.level(), msg)
 	case e.Kind == "log" && e.Meta:
 		return sender.SendCustomNotification(c10Method["log"], map[string]interface{}{"level": "info", "data": msg, "_meta": meta})
 	case e.Kind == "custom" && !e.Meta:
@@ -178,8 +189,9 @@ func c10Check(n *mcp.JSONRPCNotification) (nonce string, i int, meta bool, intac
 			intact, detail = false, fmt.Sprintf("progress %v is not a number", af["progress"])
 		}
 	case "log":
-		if l, _ := af["level"].(string); l != "info" {
-			intact, detail = false, fmt.Sprintf("level %v", af["level"])
+		// the level is compared by the caller, which knows the emission
+		if _, ok := af["level"].(string); !ok {
+			intact, detail = false, fmt.Sprintf("level %v is not a string", af["level"])
 		}
 	case "custom":
 		want := map[string]interface{}{"seq": float64(i), "text": full}
@@ -279,6 +291,9 @@ func c10RunGroup(group []c10Scenario) []c10Result {
 	for _, kind := range group[0].Reg {
 		client.RegisterNotificationHandler(c10Method[kind], func(n *mcp.JSONRPCNotification) error {
 			nonce, i, meta, intact, detail := c10Check(n)
+			if group[0].SlowUs > 0 {
+				time.Sleep(time.Duration(group[0].SlowUs) * time.Microsecond)
+			}
 			mu.Lock()
 			defer mu.Unlock()
 			k, ok := idx[nonce]
@@ -286,6 +301,18 @@ func c10RunGroup(group []c10Scenario) []c10Result {
 				k = 0
 				detail = "unattributable notification: " + detail
 				intact = false
+			} else if n.Method == c10Method["log"] && intact {
+				for _, e := range group[k].Emitted {
+					if e.Kind == "log" && e.I == i {
+						want := "info"
+						if !e.Meta {
+							want = e.level()
+						}
+						if l, _ := n.Params.AdditionalFields["level"].(string); l != want {
+							intact, detail = false, fmt.Sprintf("level %q != %q", l, want)
+						}
+					}
+				}
 			} else if n.Method == c10Method["progress"] && intact {
 				for _, e := range group[k].Emitted {
 					if e.Kind == "progress" && e.I == i {
